@@ -27,6 +27,32 @@ func init() {
 			return []engine.Phase{
 				{Name: "voxelsets-machine-zoom", Custom: runVoxWorlds("C03", "Z", tier), ReplayCustom: replayVoxWorld("C03", "Z", tier),
 					Rule: "BFS over worlds (root voxel + descendants two levels down, optionally the twin across f=-1|0); ops: Z[h,v] for a 5x5 window of target zooms (verified against the model through both APIs), M[h,v] and drop/add (drivers); non-trivial = distinct (state, Z target) whose result differs from the state"},
+				{Name: "textual-prefix-lists", ShardDepth: 2, Bounds: engine.Bounds{InputDev: -1},
+					Rule: "lists of 2-3 voxels whose ID strings are prefixes / decimal extensions of one another (y 7 vs 70, x 5 vs 57, f 1 vs 12, v 2 vs 21) in 4 orders x h in {7,13,20,35} x v in {2,3,20} x target zooms within +-1: result set = model (both APIs, repeated entries); non-trivial = distinct (list, target)",
+					Body: func(c *engine.Ctx) {
+						h := []int64{7, 13, 20, 35}[c.In("h", 4)]
+						v := []int64{2, 3, 20}[c.In("v", 3)]
+						ls := prefixLists(h, v)
+						l := ls[c.In("list", len(ls))]
+						th := h + int64(c.In("dh", 3)) - 1
+						tv := v + int64(c.In("dv", 3)) - 1
+						if th > 35 || tv > 35 {
+							c.Skip("target-out-of-range")
+						}
+						for _, x := range l {
+							if x.V-tv > 8 || tv-x.V > 8 {
+								c.Skip("zoom-spread-too-large")
+							}
+						}
+						ids := ref.Exts(l)
+						viol, _ := checkZoom("C03", ids, l, th, tv)
+						c.Observe("%v %d %d -> %d", ids, th, tv, len(viol))
+						c.Nontrivial(fmt.Sprint(ids, th, tv))
+						c.Outcome(fmt.Sprint(ids, th, tv))
+						for _, x := range viol {
+							c.Violation(x.Sig, x.Detail)
+						}
+					}},
 				{Name: "vertical-helper", ShardDepth: 2, Bounds: engine.Bounds{InputDev: -1},
 					Rule: "full product zin x zout (any coarsening, refining by <= 3... 10 levels) x f in VIdx(zin): VerticalZoom vs arithmetic shift; non-trivial = distinct (zin,f,zout) with negative f and zout < zin",
 					Body: func(c *engine.Ctx) {
